@@ -17,16 +17,22 @@ E_UNITS = {'J/mol': 1.0, 'kJ/mol': 1e3, 'cal/mol': 4.184, 'kcal/mol': 4184.0,
            # juxtaposition, base units)
            'J mol^-1': 1.0, 'kJ*mol^-1': 1e3, 'cal mol^(-1)': 4.184,
            'kcal/(mol)': 4184.0, 'kg m^2/s^2/mol': 1.0, 'N m/mol': 1.0,
-           'kJ/kmol': 1.0, 'erg/molecule': 1e-7 * 6.02214179e23}
+           'kJ/kmol': 1.0, 'erg/molecule': 1e-7 * 6.02214179e23,
+           # a bare number divided by a unit, numbers inside the unit string
+           '1/mol kJ': 1e3, 'kJ (1/mol)': 1e3, '1/kmol kJ': 1.0,
+           '1/(mol/kJ)': 1e3, 'kJ/(2 mol) 2': 1e3}
 S_UNITS = {'J/(mol*K)': 1.0, 'kJ/(mol*K)': 1e3, 'cal/(mol*K)': 4.184,
            'kcal/(mol*K)': 4184.0, 'eV/(molecule*K)': EV_PER_MOLECULE,
            'J/mol/K': 1.0, 'cal/(mol K)': 4.184, 'mJ/(mol*K)': 1e-3,
            'J/(K*mol)': 1.0, 'J mol^-1 K^-1': 1.0, 'cal/K/mol': 4.184,
-           'J/mol K^-1': 1.0, 'kJ/(kmol*K)': 1.0}
+           'J/mol K^-1': 1.0, 'kJ/(kmol*K)': 1.0,
+           'J (1/(mol K))': 1.0, '1/(mol K) J': 1.0, 'kJ (1/(mol kK))': 1.0,
+           '1/mol/K cal': 4.184}
 T_UNITS = {'K': 1.0, 'mK': 1e-3, 'kK': 1e3}
-BLOCK_E = ['kcal/mol', 'kJ/mol', 'J/mol', 'cal/mol', 'eV/molecule']
+BLOCK_E = ['kcal/mol', 'kJ/mol', 'J/mol', 'cal/mol', 'eV/molecule',
+           '1/kmol kJ']
 BLOCK_S = ['cal/(mol*K)', 'J/(mol*K)', 'kJ/(mol*K)', 'kcal/(mol*K)',
-           'eV/(molecule*K)']
+           'eV/(molecule*K)', '1/(mol K) J']
 
 CSG = ['C', 'O', 'CO', 'C[d]', 'N[A]', 'C[.]', 'Pt']
 PSG = ['C', 'H', 'O', 'CO', 'C[d]', 'Pt', 'N[A]', 'C[B]']
@@ -206,6 +212,22 @@ def gen_abstract(rng, opts):
             elif cp:
                 cp[rng.choice(sorted(cp))] = 0.0
                 strata.add('zero_Cp')
+        elif opts.get('whole', True) and rng.random() < 0.06:
+            # a value whose non-dimensional form is a whole number of 7 to 15
+            # digits (written '1234567.0': nothing after the point to keep
+            # a formatter honest)
+            k = float(rng.choice([-1, 1]) *
+                      rng.randrange(10 ** 6, 10 ** rng.randrange(7, 16)))
+            which = rng.choice(['H', 'S', 'Cp'])
+            if which == 'H':
+                H = k * R_GAS * tref
+                strata.add('whole_nd_H')
+            elif which == 'S':
+                S = k * R_GAS
+                strata.add('whole_nd_S')
+            elif cp:
+                cp[rng.choice(sorted(cp))] = k * R_GAS
+                strata.add('whole_nd_Cp')
         lo_all = min([tref] + temps)
         hi_all = max([tref] + temps)
         full_lo = rng.choice([lo_all, lo_all, min(lo_all, 100.0)])
